@@ -93,7 +93,7 @@ def run_case(case):
             obs[i]["wire_id"] = ids.get(i)
         return raw_writes
 
-    writes = vloop.run(main, tie="events")
+    writes = vloop.run(main, tie=case.get("tie", "events"))
     return {"callers": obs, "writes": writes, "log": [[j, t] for (j, t, _) in log]}
 
 
